@@ -113,7 +113,7 @@ package spynode
 // (the mempool calls are summarised by their frames here: what RemoveTransaction and Conflicting do
 // to the conflict index is specified on those functions themselves, C05 / C06)
 //@ func (*Node).ProcessBlock
-//@   serves C02 C04 C06 C03 C11
+//@   serves C02 C04 C06 C03 C11 C14
 //@   opt nomonitor = 1
 //@   opt partial = 1
 //@   opt abstract = SaveTxState FetchTxState fetchSpentOutputs CleanupBlock RemoveTransaction Conflicting
@@ -126,6 +126,10 @@ package spynode
 //@   loop 0 invariant forall(k, 0, len(txs), txs[k] != nil)
 //@   loop 0 invariant forall(k, 0, mtnreq(merkleTree), mtreq(merkleTree, k) == TxHashOf(txs[k]))
 //@   loop 0 invariant forall(k, 0, mtnreq(merkleTree), mtregleaf(merkleTree, k) < mtnleaf(merkleTree))
+// every transaction read from the block is on the list handed to CleanupBlock (the trackers forget
+// announcements of confirmed transactions whether or not the node is in sync)
+//@   loop 0 invariant [C14] len(txids) == blkpos(block) - old(blkpos(block))
+//@   assert forgets_every_block_tx at call CleanupBlock : [C14] len(arg2) == blkpos(block) - old(blkpos(block))
 //@   loop 4 invariant base(node) && 0 <= _i && _i <= len(txs) && len(txs) == len(txsIsNew) && len(txs) == len(txsIsSafe) && len(merkleProofs) == len(txs) && merkleRootHash == header.MerkleRoot
 //@   loop 4 invariant sinceloop(same(header)) && forall(k, 0, len(txs), txs[k] != nil && merkleProofs[k] != nil && ProofTx(merkleProofs[k]) == TxHashOf(txs[k]) && ProofRoot(merkleProofs[k]) == merkleRootHash)
 //@   loop 5 invariant base(node) && sinceloop(same(txState.State, txState.Tx))
